@@ -175,7 +175,7 @@ func main() {
 			}
 			return r
 		},
-		Rule: "every operation history of length 4 (quick) / 5 (thorough) over {write of 1, MaxBytes-1, MaxBytes, MaxBytes+1, 200 bytes with unique content; Reopen; external rename of the active file followed by Reopen; clock +1ns; clock +31ms} plus every history of length 6 (7) over the reduced alphabet {1 byte, MaxBytes+1 bytes, Reopen, +31ms} (files pile up over several Reopens before retention runs), for each of 128 configurations (MaxBytes 0/8/64/300 x MaxFiles 0..3 x MaxDuration 0/30ms x TimestampOnlyOnRotate x default mode and fresh directory / mode 0640 with a pre-existing file and bystanders) on the real FileSink over a real directory with the virtual clock. Oracle at every file-system call the sink makes (= every state a SIGKILL can leave) and after every step: the sink's files read oldest to newest (identities tracked through the sink's own renames/removals) concatenate to exactly the acknowledged events; files vanish only through the sink's own retention; bystander files survive. Concurrent part: 2-3 writer threads and a Reopen thread on one sink (MaxBytes=8 so rotations interleave), every schedule within the preemption bound: the files parse into whole acknowledged events, each once, in an order consistent with the calls' real-time order.",
+		Rule: "every operation history of length 4 (quick) / 5 (thorough) over {write of 1, MaxBytes-1, MaxBytes, MaxBytes+1, 200 bytes with unique content; Reopen; external rename of the active file followed by Reopen; clock +1ns; clock +31ms} plus every history of length 6 (7) over the reduced alphabet {1 byte, MaxBytes+1 bytes, Reopen, +31ms} (files pile up over several Reopens before retention runs), for each of 128 configurations (MaxBytes 0/8/64/300 x MaxFiles 0..3 x MaxDuration 0/30ms x TimestampOnlyOnRotate x default mode and fresh directory / mode 0666 under umask 022 with a pre-existing file and bystanders) on the real FileSink over a real directory with the virtual clock. Oracle at every file-system call the sink makes (= every state a SIGKILL can leave) and after every step: the sink's files read oldest to newest (identities tracked through the sink's own renames/removals) concatenate to exactly the acknowledged events; files vanish only through the sink's own retention; bystander files survive. Concurrent part: 2-3 writer threads and a Reopen thread on one sink (MaxBytes=8 so rotations interleave), every schedule within the preemption bound: the files parse into whole acknowledged events, each once, in an order consistent with the calls' real-time order.",
 		Assumptions: []string{
 			"kill model: each effect of the sink is one system call and an append of <=200 bytes to a regular file is not torn by SIGKILL, so the states between consecutive calls are all the crash states; 'one write(2) of the exact size per acknowledged event' is cross-checked with strace on a child process (skipped with a note if ptrace is not permitted)",
 			"concurrent scenarios: <=3 writers + 1 Reopen thread, preemption bound 1-3; 8 writers of the statement are not reached",
